@@ -84,13 +84,20 @@ SpecialBase(fr) ==
       [] fr = "gal"  -> {DP(a.in.lon, a.in.lat) : a \in Anchors(2) \cup Anchors(6)}
       [] fr = "ec"   -> {DP(a.in.lon, a.in.lat) : a \in Anchors(4) \cup Anchors(5)}
       [] fr = "sdss" -> {DP(DAng(57, 500000, 0), DDeg(0)), DP(DAng(-123, 500000, 0), DDeg(0)), DP(DDeg(0), DDeg(0))}
-      [] fr = "xyz"  -> {DP(a.in.lon, a.in.lat) : a \in Anchors(1)}
+      [] fr \in {"xyz", "xyzs", "eqr"} -> {DP(a.in.lon, a.in.lat) : a \in Anchors(1)} \cup {DP(DDeg(95), DDeg(0)), DP(DDeg(275), DDeg(0))}
 FrameDecRaw(fr) == (IF fr = "sdss" THEN SdssDec ELSE SphDec) \cup UNION {Around(p) : p \in SpecialBase(fr)}
 FrameDec(fr) == {p \in FrameDecRaw(fr) : ValidIn(fr, PtD(p.lon, p.lat))}
 DPLess(p, q) == \/ DLt(p.lon, q.lon) \/ (p.lon = q.lon /\ DLt(p.lat, q.lat))
 FrameSeq(fr) == SetToSortSeq(FrameDec(fr), DPLess)
 FrameOf(n) == CASE n = 1 -> "eq" [] n = 2 -> "gal" [] n = 3 -> "ec" [] n = 4 -> "sdss" [] n = 5 -> "xyz"
-PickFrame == kind = "start" /\ kind' = "frame" /\ UNCHANGED <<path, y, z>> /\ x' \in 1..5
+                [] n = 6 -> "eqr" [] n = 7 -> "xyzs"
+NFrames == 7
+PickFrame == kind = "start" /\ kind' = "frame" /\ UNCHANGED <<path, y, z>> /\ x' \in 1..NFrames
+
+\* ---- options: x = index of the dtype, y = index of the input representation ---------------------------
+DTypeSeq == <<"f8", "f4", "ld">>
+RepSeq   == <<"array", "scalar", "n1", "npscalar", "list", "f4", "int", "swapped", "strided">>
+PickOpt == kind = "start" /\ kind' = "opt" /\ UNCHANGED <<path, z>> /\ x' \in DOMAIN DTypeSeq /\ y' \in DOMAIN RepSeq
 
 \* ---- isometry pairs -----------------------------------------------------------------------------
 \* (one state per first point; the theorems quantify over the second point of the row.  TLC does not cache
@@ -123,18 +130,31 @@ AnchorSeq(s) == SetToSortSeq(Anchors(s), ALess)
 PickAnchor == kind = "start" /\ kind' = "anchor" /\ UNCHANGED <<path, z>>
               /\ x' \in 1..6 /\ y' \in 1..Cardinality(Anchors(x'))
 
-Next == Start \/ Step \/ PickFrame \/ PickGC1 \/ PickRS1 \/ PickShift \/ PickCube \/ PickAnchor
-NextExport == Start \/ Step \/ PickFrame \/ PickGC1 \/ PickRS1 \/ PickCube \/ PickAnchor
+Next == Start \/ Step \/ PickFrame \/ PickOpt \/ PickGC1 \/ PickRS1 \/ PickShift \/ PickCube \/ PickAnchor
+NextExport == Start \/ Step \/ PickFrame \/ PickOpt \/ PickGC1 \/ PickRS1 \/ PickCube \/ PickAnchor
 Spec == Init /\ [][Next]_vars
 
 \* ---- theorems ------------------------------------------------------------------------------
 PathTheorems == kind = "path" =>
     /\ ValidPath(path)
     /\ \A s \in Selectors : SelInverse(SelInverse(s)) = s /\ SelSrc(SelInverse(s)) = SelDst(s)
-    /\ HasCanon(path) => Reduce(path) = Canon(path)
+    \* among the frames in degrees the two-step equations generate all others; the equations through the radian
+    \* frame (same point, other units => same vector) are independent of them
+    /\ (HasCanon(path) /\ \A k \in DOMAIN path : SelUnits(path[k]) = "deg") => Reduce(path) = Canon(path)
     /\ HasCanon(path) => EqnTol9(path) \in {1, 2, 3, 4, 10000, 20000, 30000, 40000}
     /\ (Len(path) = 2 /\ path[2] = SelInverse(path[1])) => (Canon(path) = <<>> /\ EqnTol9(path) \in {1, 10000})
-    /\ (HasCanon(path) /\ EqnTol9(path) < 10000) => \A k \in DOMAIN path : path[k] \in 7..10
+    /\ (HasCanon(path) /\ EqnTol9(path) < 10000) => \A k \in DOMAIN path : ~IsEuler(path[k])
+    \* options: every conversion leaving one frame treats the type of its input alike; the float32 tolerance is
+    \* the weaker one; float64 / longdouble requests and exact representations keep the stated tolerance
+    /\ \A s, t \in Selectors : SelSrc(s) = SelSrc(t) => HasDType(s) = HasDType(t)
+    /\ HasCanon(path) => \A dt \in DTypes, rp \in Reps :
+          /\ EqnTol9x(path, dt, rp) >= EqnTol9(path)
+          /\ (dt # "f4" /\ rp # "f4") => (EqnTol9x(path, dt, rp) = EqnTol9(path) /\ LatSlack9(EqnPrec(path, dt, rp)) = 0)
+          /\ EqnTol9x(path, dt, rp) < 1073741824
+
+OptTheorems == kind = "opt" =>
+    /\ VRange(DTypeSeq) = DTypes /\ VRange(RepSeq) = Reps
+    /\ AnchorTol9x(DTypeSeq[x]) >= AnchorTol9
 
 PointTheorems == kind = "frame" =>
     LET fr == FrameOf(x) IN
@@ -201,6 +221,7 @@ AnchorTheorems == kind = "anchor" =>
 
 \* ---- export ----------------------------------------------------------------------------------------
 SelInfo(s) == [sel |-> s, name |-> SelName(s), src |-> SelSrc(s), dst |-> SelDst(s), euler |-> IsEuler(s),
+               units |-> SelUnits(s), stomp |-> SelStomp(s), hasdtype |-> HasDType(s),
                isotol9 |-> IsoTol9(s), lonrange |-> IF HasLonRange(s) THEN <<LonLo(s), LonHi(s)>> ELSE <<>>]
 GCRow(a) == LET GG == G
                 js == SelectSeq([k \in 1..(Len(GG) - a + 1) |-> a + k - 1], LAMBDA b : GDefined(GG[a], GG[b]))
@@ -212,13 +233,20 @@ ShiftRow(u, lon) == LET ss == SetToSortSeq(UNION {{a, -a} : a \in ShiftsOf(u)}, 
 
 Export == DoExport =>
     /\ kind = "start" =>
-          /\ PrintT(<<"SEL", ToJson([sels |-> [s \in 1..11 |-> SelInfo(s)], rottol9 |-> RotTol9, anchortol9 |-> AnchorTol9,
-                                     unittol52 |-> UnitTol52, invcands |-> InvCands])>>)
+          /\ PrintT(<<"SEL", ToJson([sels |-> [s \in 1..17 |-> SelInfo(s)], rottol9 |-> RotTol9, anchortol9 |-> AnchorTol9,
+                                     unittol52 |-> UnitTol52, invcands |-> InvCands, f4tol9 |-> F4Tol9,
+                                     rottolx |-> [j \in DOMAIN RepSeq |-> RotTol9x(RepSeq[j])], reps |-> RepSeq, dtypes |-> DTypeSeq,
+                                     xyztol |-> [i \in DOMAIN DTypeSeq |-> XyzTol9(DTypeSeq[i])]])>>)
           /\ PrintT(<<"GCPTS", ToJson([pts |-> G])>>) /\ PrintT(<<"RSPTS", ToJson([pts |-> S])>>)
           /\ \A u \in {1, 2} : \A lon \in LonsOf(u) : PrintT(<<"SHIFT", ToJson(ShiftRow(u, lon))>>)
     /\ (kind = "path" /\ Len(path) >= 2 /\ HasCanon(path)) =>
           PrintT(<<"EQN", ToJson([path |-> path, rhs |-> Canon(path), tol9 |-> EqnTol9(path), kind |-> EqnKind(path),
-                                  frame |-> PathSrc(path)])>>)
+                                  frame |-> PathSrc(path),
+                                  \* tolerance and latitude slack per (dtype, representation), in the order of DTypeSeq x RepSeq
+                                  tolx |-> [i \in DOMAIN DTypeSeq |-> [j \in DOMAIN RepSeq |-> EqnTol9x(path, DTypeSeq[i], RepSeq[j])]],
+                                  slack |-> [i \in DOMAIN DTypeSeq |-> [j \in DOMAIN RepSeq |->
+                                                 LatSlack9(EqnPrec(path, DTypeSeq[i], RepSeq[j]))]]])>>)
+    /\ kind = "opt" => PrintT(<<"OPT", ToJson([dt |-> DTypeSeq[x], rep |-> RepSeq[y], anchortol9 |-> AnchorTol9x(DTypeSeq[x])])>>)
     /\ kind = "frame" => PrintT(<<"PTS", ToJson([frame |-> FrameOf(x), pts |-> FrameSeq(FrameOf(x))])>>)
     /\ kind = "gc1" => PrintT(<<"GCROW", ToJson(GCRow(x))>>)
     /\ kind = "rs1" => PrintT(<<"RSROW", ToJson(RSRow(x))>>)
